@@ -95,6 +95,10 @@ type hcfg struct {
 	// 2 custom that writes its own 403 response and returns nil, 3 custom that returns nil without
 	// writing anything. The verdict never depends on it: did the protected handler run.
 	errHandler int
+	// several middleware instances in one process: a route group of a shared app (sharedApp, under
+	// pathPrefix) instead of an app of its own
+	sharedApp  *fiber.App
+	pathPrefix string
 	// cookie options of the CSRF cookie: they shape the Set-Cookie line only; the server-side token
 	// lifetime (IdleTimeout) and every verdict are independent of them
 	ckSessionOnly, ckSecure, ckHTTPOnly bool
@@ -180,8 +184,8 @@ func mutate(tok string, which int) string {
 	return string(b)
 }
 
-func newWorld(cfg *hcfg, plan *faultPlan) *world {
-	w := &world{cfg: cfg}
+// appConfig is the fiber.Config an app needs for the scheme mode and the methods of cfg.
+func appConfig(cfg *hcfg) fiber.Config {
 	fc := fiber.Config{}
 	if cfg.mode == smProxyHTTPS || cfg.mode == smProxySpoof {
 		fc.TrustProxy = true
@@ -191,7 +195,17 @@ func newWorld(cfg *hcfg, plan *faultPlan) *world {
 		// methods beyond fiber's defaults have to be registered with the app to be routable at all
 		fc.RequestMethods = append(append([]string(nil), fiber.DefaultMethods...), customMethods...)
 	}
-	w.app = fiber.New(fc)
+	return fc
+}
+
+func newWorld(cfg *hcfg, plan *faultPlan) *world {
+	w := &world{cfg: cfg}
+	fc := appConfig(cfg)
+	if cfg.sharedApp != nil {
+		w.app = cfg.sharedApp
+	} else {
+		w.app = fiber.New(fc)
+	}
 	cc := fcsrf.Config{
 		IdleTimeout:       cfg.idle,
 		SingleUseToken:    cfg.singleUse,
@@ -300,16 +314,21 @@ func newWorld(cfg *hcfg, plan *faultPlan) *world {
 		w.entries = append(w.entries, en)
 		return c.SendString("deleted")
 	}
-	if cfg.extractor == "param" {
-		g := w.app.Group("/:"+paramName, mw)
+	switch {
+	case cfg.extractor == "param":
+		g := w.app.Group(cfg.pathPrefix+"/:"+paramName, mw)
 		g.All("/r", h)
 		g.All("/del", hd)
-	} else {
+	case cfg.pathPrefix != "":
+		g := w.app.Group(cfg.pathPrefix, mw)
+		g.All("/r", h)
+		g.All("/del", hd)
+	default:
 		w.app.Use(mw)
 		w.app.All("/r", h)
 		w.app.All("/del", hd)
 	}
-	w.d = drive.NewDirect(w.app)
+	w.d = drive.NewDirect(w.app) // with a shared app: rebuilt by the caller once every group is registered
 	if cfg.reuseCtx {
 		w.fctx = &fasthttp.RequestCtx{}
 	}
@@ -454,6 +473,7 @@ type wire struct {
 	sid     string // session cookie value ("" = none)
 	origin  *hdrVal
 	referer *hdrVal
+	xhdr    int    // index into extraHeaders
 	mode    int    // how this request arrives (scheme mode); the app may be reachable over both schemes
 	req     otuple // the request's own origin: scheme of this request, host and port of the Host header
 }
@@ -488,7 +508,8 @@ func (w *world) do(q *wire) *drive.Resp {
 	case "cookie":
 		ck = q.ext
 	}
-	rq.URI = path
+	rq.URI = cfg.pathPrefix + path
+	rq.Hdr = append(rq.Hdr, extraHeaders[q.xhdr]...)
 	var cookies []string
 	if ck != "" {
 		cookies = append(cookies, cfg.cookieName+"="+ck)
@@ -676,10 +697,11 @@ const (
 	selStale
 	selEmpty
 	selPrev
-	selMut // the client's own token with one byte changed (position from step.idx)
+	selMut  // the client's own token with one byte changed (position from step.idx)
+	selPeer // a token held by a client of ANOTHER middleware instance of the same process
 )
 
-var selNames = []string{"own", "other", "forged", "future", "stale", "empty", "prev", "mutated"}
+var selNames = []string{"own", "other", "forged", "future", "stale", "empty", "prev", "mutated", "peer-instance"}
 
 // origin flavours inside histories
 const (
@@ -704,6 +726,7 @@ type step struct {
 	adv    int
 	label  string
 	o, ref *hdrVal // ofExplicit
+	xhdr   int     // extra request headers (extraHeaders), irrelevant to every clause
 	modeOv int     // 0: the case's scheme mode; otherwise scheme mode + 1 for this request only
 }
 
@@ -716,6 +739,18 @@ type histSpec struct {
 // Safe methods are GET, HEAD, OPTIONS, TRACE (RFC 9110 9.2.1); every other method is unsafe: the
 // usual four, CONNECT (one of fiber's default methods) and, when the app registers them through
 // Config.RequestMethods, extension methods.
+// extraHeaders: request headers that no clause of the statement mentions; a request is judged the
+// same with or without them (CORS preflight headers, fetch metadata, AJAX marker).
+var extraHeaders = [][]drive.H{
+	nil,
+	{{K: "Access-Control-Request-Method", V: "POST"}, {K: "Access-Control-Request-Headers", V: "x-csrf-token, content-type"}},
+	{{K: "Access-Control-Request-Method", V: "DELETE"}},
+	{{K: "X-Requested-With", V: "XMLHttpRequest"}},
+	{{K: "Sec-Fetch-Site", V: "cross-site"}, {K: "Sec-Fetch-Mode", V: "cors"}, {K: "Sec-Fetch-Dest", V: "empty"}},
+	{{K: "Sec-Fetch-Site", V: "same-origin"}, {K: "Sec-Fetch-Mode", V: "navigate"}, {K: "Sec-Fetch-Dest", V: "document"}, {K: "Sec-Fetch-User", V: "?1"}},
+	{{K: "Access-Control-Request-Method", V: "PUT"}, {K: "X-Requested-With", V: "XMLHttpRequest"}, {K: "Sec-Fetch-Mode", V: "cors"}},
+}
+
 var unsafeMethods = []string{"POST", "POST", "POST", "PUT", "PATCH", "DELETE", "CONNECT"}
 var customMethods = []string{"PURGE", "PROPPATCH", "LINK", "UNLINK", "MKCOL"}
 
@@ -810,7 +845,11 @@ func hostTuple(scheme, hostHdr string) otuple {
 }
 
 func genHistory(r *gen.Rand, backends []string, maxSteps int, noTime bool) *histSpec {
-	cfg := genCfg(r, backends)
+	return genSteps(r, genCfg(r, backends), maxSteps, noTime)
+}
+
+// genSteps generates the abstract steps of a history for a given configuration.
+func genSteps(r *gen.Rand, cfg *hcfg, maxSteps int, noTime bool) *histSpec {
 	hs := &histSpec{cfg: cfg, nClients: r.Range(1, 3)}
 	n := r.Range(1, maxSteps)
 	for i := 0; i < n; i++ {
@@ -818,6 +857,9 @@ func genHistory(r *gen.Rand, backends []string, maxSteps int, noTime bool) *hist
 		s.other = (s.cl + 1 + r.Intn(hs.nClients)) % hs.nClients // may equal cl when nClients==1
 		s.idx = r.Intn(8)
 		s.orig = ofNone
+		if r.Chance(1, 4) {
+			s.xhdr = r.Intn(len(extraHeaders))
+		}
 		if r.Chance(1, 6) {
 			s.orig = gen.Pick(r, []int{ofSame, ofSame, ofEvil, ofRefOK, ofRefBad})
 		}
@@ -831,8 +873,14 @@ func genHistory(r *gen.Rand, backends []string, maxSteps int, noTime bool) *hist
 		switch r.PickW(wFetch, wPost, wAdv, wDel) {
 		case 0:
 			s.kind, s.method, s.label = kFetch, gen.Pick(r, safeMethods), "fetch"
-			if r.Chance(1, 10) { // safe request carrying a token the client does not own
+			if r.Chance(1, 6) { // safe request carrying a token the client does not own, or none
 				s.ck, s.label = gen.Pick(r, []int{selOther, selForged, selStale, selEmpty}), "fetch-with-foreign-cookie"
+			}
+			if r.Chance(1, 3) { // Origin / Referer on safe requests
+				s.orig = gen.Pick(r, []int{ofSame, ofEvil, ofRefOK, ofRefBad})
+			}
+			if s.method == "OPTIONS" && r.Bool() {
+				s.xhdr = gen.Pick(r, []int{1, 2, 6}) // a CORS preflight
 			}
 		case 1:
 			s.kind, s.method = kPost, unsafeFor(r, cfg)
@@ -930,6 +978,7 @@ type runner struct {
 	trace      []string
 	plan       string // fault plan text ("" = none)
 	nForge     int
+	peers      []*runner // other middleware instances living in the same process
 	nontrivial bool
 }
 
@@ -990,6 +1039,17 @@ func (rn *runner) pick(sel int, s *step, cl *client) string {
 		return cl.hist[s.idx%len(cl.hist)]
 	case selMut:
 		return mutate(cl.tok, s.idx)
+	case selPeer:
+		// any token a client of another instance currently holds (prefer a live one)
+		for k := range rn.peers {
+			pr := rn.peers[(s.idx+k)%len(rn.peers)]
+			for j := range pr.m.clients {
+				if t := pr.m.clients[(s.cl+j)%len(pr.m.clients)].tok; t != "" {
+					return t
+				}
+			}
+		}
+		return ""
 	case selPrev:
 		return "" // resolved by caller
 	}
@@ -1030,14 +1090,18 @@ func (rn *runner) opsSince(from int) (ops []vstore.Op) {
 	return nil
 }
 
-func runHistory(e *ev.Env, c *ev.Case, hs *histSpec, fp *faultPlan, plan string) (w *world, nontrivial bool) {
-	cfg := hs.cfg
+func newRunner(e *ev.Env, c *ev.Case, hs *histSpec, fp *faultPlan, plan string) *runner {
 	rn := &runner{e: e, c: c, hs: hs, plan: plan}
-	rn.w = newWorld(cfg, fp)
-	rn.m = &model{cfg: cfg, tokens: map[string]*tokInfo{}}
+	rn.w = newWorld(hs.cfg, fp)
+	rn.m = &model{cfg: hs.cfg, tokens: map[string]*tokInfo{}}
 	for i := 0; i < hs.nClients; i++ {
 		rn.m.clients = append(rn.m.clients, &client{})
 	}
+	return rn
+}
+
+func runHistory(e *ev.Env, c *ev.Case, hs *histSpec, fp *faultPlan, plan string) (w *world, nontrivial bool) {
+	rn := newRunner(e, c, hs, fp, plan)
 	vt.AlignHalf(0)
 	for i := range hs.steps {
 		rn.step(&hs.steps[i])
@@ -1111,6 +1175,7 @@ func (rn *runner) step(s *step) {
 			q.ext = "none" // a path parameter cannot be empty; "none" is never issued
 		}
 	}
+	q.xhdr = s.xhdr
 	q.mode = cfg.mode
 	if s.modeOv != 0 {
 		q.mode = s.modeOv - 1
@@ -1190,8 +1255,8 @@ func (rn *runner) step(s *step) {
 		sidAfter = sidVal
 	}
 
-	line := fmt.Sprintf("t=%s c%d %s %s /%s [%s] ext=%q cookie=%q sid=%q origin=%s referer=%s -> %d reached=%v set-cookie=%q expired=%v generated=%v",
-		now.Round(time.Millisecond), s.cl, smNames[q.mode], q.method, q.route, s.label, q.ext, q.ck, q.sid, hv(q.origin), hv(q.referer), resp.Status, reached, ckVal, ckExpired, made)
+	line := fmt.Sprintf("t=%s c%d %s %s /%s [%s] ext=%q cookie=%q sid=%q origin=%s referer=%s xhdr=%d -> %d reached=%v set-cookie=%q expired=%v generated=%v",
+		now.Round(time.Millisecond), s.cl, smNames[q.mode], q.method, q.route, s.label, q.ext, q.ck, q.sid, hv(q.origin), hv(q.referer), q.xhdr, resp.Status, reached, ckVal, ckExpired, made)
 	if q.route == "del" && reached {
 		line += fmt.Sprintf(" DeleteToken()=%q", delErrOf(ents))
 	}
